@@ -299,6 +299,23 @@ static void json_str(FILE* f, const char* s)
 
 static sk_result res, res2;
 
+/* occurrences of a violation class within this batch */
+static int seen_class(const char* cls)
+{
+	static char names[64][96];
+	static int counts[64], n;
+	int i;
+	for (i = 0; i < n; ++i)
+		if (!strcmp(names[i], cls))
+			return counts[i]++;
+	if (n < 64)
+	{
+		snprintf(names[n], sizeof(names[n]), "%s", cls);
+		counts[n++] = 1;
+	}
+	return 0;
+}
+
 int sk_main(int argc, char** argv)
 {
 	uint64_t seed = 1, from = 0, to = 0, one = 0;
@@ -436,6 +453,12 @@ int sk_main(int argc, char** argv)
 			++nfault;
 			printf("F %llu %llu %s\n", (unsigned long long)idx,
 				(unsigned long long)rs, res.detail);
+		}
+		else if (res.violated && seen_class(res.cls) >= 3)
+		{
+			/* a class already reported three times in this batch (typically a recorded known
+			   finding that many runs meet) is only counted: it must not use up the batch */
+			sk_count("violations_of_an_already_reported_class", 1);
 		}
 		else if (res.violated)
 		{
